@@ -8,6 +8,19 @@ fn main() {
     let mut res = vec![];
     if arg != "-" {
         for w in arg.split(',') {
+            if w == "s" {
+                // an actor is spawned with the default capacity (and ended) before the next call:
+                // spawning only READS the default, it must not fix it
+                let rt = tokio::runtime::Builder::new_current_thread().enable_time().build().unwrap();
+                rt.block_on(async {
+                    let sh = Shared::new();
+                    sh.st.lock().unwrap().env.push(ActorEnv { auto: true, ..Default::default() });
+                    let (r, j) = rsactor::spawn::<SA>((0usize, sh.clone()));
+                    let _ = r.kill();
+                    let _ = j.await;
+                });
+                continue;
+            }
             let n: usize = w.parse().unwrap();
             res.push(if rsactor::set_default_mailbox_capacity(n).is_ok() { "ok" } else { "err" });
         }
